@@ -250,4 +250,15 @@ func init() {
 	slHead := `(?s)"strings"\n(.*?)func SantaLucia\(sequence string, primerConcentration, saltConcentration, magnesiumConcentration float64\) \(meltingTemp, dH, dS float64\) \{\n`
 	fire("C19", "results-remembered-without-the-magnesium", pm, slHead, remembered("primerConcentration, saltConcentration", "primerConcentration, saltConcentration"), "STATE/memo-key")
 	silent("C19", "results-remembered-under-every-argument", pm, slHead, remembered("primerConcentration, saltConcentration, magnesiumConcentration", "primerConcentration, saltConcentration, magnesiumConcentration"))
+	// round 14
+	fire("C05", "type-looked-up-inside-a-text", sh, `sequenceType != "DNA" && sequenceType != "RNA" && sequenceType != "PROTEIN"`, `!strings.Contains("DNA, RNA, or PROTEIN", sequenceType)`, "GUARD/rejects unknown sequenceType")
+	fire("C02", "single-operand-returned-before-the-strand-is-looked-at", "poly.go", `\t\} else \{\n\n\t\tfor _, subLocation := range location\.SubLocations \{`, "\t} else if len(location.SubLocations) == 1 {\n\t\treturn getFeatureSequence(feature, location.SubLocations[0])\n\t} else {\n\n\t\tfor _, subLocation := range location.SubLocations {", "TERM-EVAL/complement")
+	silent("C02", "single-forward-operand-returned-directly", "poly.go", `\t\} else \{\n\n\t\tfor _, subLocation := range location\.SubLocations \{`, "\t} else if len(location.SubLocations) == 1 && !location.Complement {\n\t\treturn getFeatureSequence(feature, location.SubLocations[0])\n\t} else {\n\n\t\tfor _, subLocation := range location.SubLocations {")
+	fire("C17", "ban-dropped-from-the-list-being-ranged-over", pm, `\t\tfor _, bannedSequence := range bannedSequences \{\n`, "\t\tfor banIndex, bannedSequence := range bannedSequences {\n\t\t\tif !strings.Contains(debruijn[start:], bannedSequence) && !strings.Contains(debruijn[start:], transform.ReverseComplement(bannedSequence)) {\n\t\t\t\tbannedSequences = append(bannedSequences[:banIndex], bannedSequences[banIndex+1:]...)\n\t\t\t\tcontinue\n\t\t\t}\n", "STATE/range-delete")
+	pooledRunes := func(tail string) string {
+		return "import (\n\t\"strings\"\n\t\"sync\"\n)\n\nvar runeBuffers = sync.Pool{New: func() interface{} { return new([]rune) }}\n${1}\tbuffer := runeBuffers.Get().(*[]rune)\n\tif cap(*buffer) < length {\n\t\t*buffer = make([]rune, length)\n\t}\n\tnewString := (*buffer)[:length]\n\tfor _, base := range complementString {\n\t\tlength--\n\t\tnewString[length] = base\n\t}\n" + tail
+	}
+	rcBody := `(?s)import "strings"\n(.*?)\tnewString := make\(\[\]rune, length\)\n\tfor _, base := range complementString \{\n\t\tlength--\n\t\tnewString\[length\] = base\n\t\}\n\treturn string\(newString\)\n`
+	fire("C11", "scratch-runes-put-back-before-they-are-copied", "transform/transform.go", rcBody, pooledRunes("\truneBuffers.Put(buffer)\n\treturn string(newString)\n"), "STATE/pool-use-after-put")
+	silent("C11", "scratch-runes-copied-before-they-are-put-back", "transform/transform.go", rcBody, pooledRunes("\treversed := string(newString)\n\truneBuffers.Put(buffer)\n\treturn reversed\n"))
 }
